@@ -346,10 +346,144 @@ _PATCHED = []
 SymFP.__hash__ = lambda self: id(self)
 
 
+def nodesig(e):
+    """refinement-stable structural name of a node (used to key forked inference answers)"""
+    if getattr(e, "_vf_leaf", False):
+        return "h" + e.hid
+    if e.kind == "symbol":
+        return "s:" + str(e.operands[0])
+    if e.kind == "constant":
+        v = e.operands[0]
+        if isinstance(v, (SymReal, SymFP)):
+            return "c:" + str(v.e)
+        return "c:" + repr(v)
+    return e.kind + "(" + ",".join(nodesig(o) for o in e.operands) + ")"
+
+
+SIGNSETS = {
+    "zero": {"z"},
+    "nonzero": {"n", "p"},
+    "positive": {"p"},
+    "negative": {"n"},
+    "nonpositive": {"n", "z"},
+    "nonnegative": {"z", "p"},
+}
+KNOWLEDGE = [(frozenset(k), f) for k in ("nzp", "n", "z", "p", "nz", "zp", "np") for f in (False, True)]
+
+
+def _knowledge_formula(K, v, w):
+    signs, fin = K
+    parts = []
+    if signs != frozenset("nzp"):
+        alts = []
+        if "n" in signs:
+            alts.append(PROP_FORMULA["negative"](v, w))
+        if "z" in signs:
+            alts.append(PROP_FORMULA["zero"](v, w))
+        if "p" in signs:
+            alts.append(PROP_FORMULA["positive"](v, w))
+        parts.append(z3.Or(alts))
+    if fin:
+        parts.append(PROP_FORMULA["finite"](v, w))
+    return z3.And(parts) if parts else z3.BoolVal(True)
+
+
+def _answer_from_knowledge(K, prop):
+    signs, fin = K
+    if prop == "finite":
+        return True if fin else None
+    if prop == "one":
+        return False if "p" not in signs else None
+    ps = SIGNSETS[prop]
+    if signs <= ps:
+        return True
+    if not (signs & ps):
+        return False
+    return None
+
+
+def _knowledge(w, name, value_thunk):
+    """what sign/finiteness inference `knows` about a node: one fork per node; the answers to all properties are
+    the strongest ones that knowledge supports (each fold of the rules is justified by the facts of the matched
+    properties; the table rows themselves are discharged with minimal hypotheses separately)"""
+    key = ("know", name)
+    if key in w.answers:
+        return w.answers[key]
+    v = value_thunk()
+    if v is None or z3.is_bool(v):
+        w.answers[key] = KNOWLEDGE[0]
+        return KNOWLEDGE[0]
+    i = w.choose(key, list(range(len(KNOWLEDGE))))
+    K = KNOWLEDGE[i]
+    w.answers[key] = K
+    if i != 0:
+        w.hyps.append(_knowledge_formula(K, v, w))
+        w.trace.append("%s~%s%s" % (name, "".join(sorted(K[0])), "f" if K[1] else ""))
+        _check_consistent(w)
+    return K
+
+
+def _contract_answer(w, node, prop):
+    def val():
+        try:
+            sem = w.make_sem()
+            v, _d = sem.collect(node)
+            w.hyps.extend(sem.axioms)
+            return v
+        except Exception:
+            return None
+
+    return _answer_from_knowledge(_knowledge(w, nodesig(node), val), prop)
+
+
+def _contract_answer_old(w, node, prop):
+    """the callee contract of Expr._is_<prop>: any of None / True / False such that True => P([[node]]),
+    False => not P([[node]])  (discharged separately by the inference obligations)"""
+    key = ("is", nodesig(node), prop)
+    if key in w.answers:
+        return w.answers[key]
+    try:
+        sem = w.make_sem()
+        v, _d = sem.collect(node)
+    except Exception:
+        w.answers[key] = None
+        return None
+    if z3.is_bool(v):
+        w.answers[key] = None
+        return None
+    a = w.choose(key, [None, True, False])
+    w.answers[key] = a
+    if a is not None:
+        P = PROP_FORMULA[prop](v, w)
+        w.hyps.append(P if a else z3.Not(P))
+        w.hyps.extend(sem.axioms)
+        w.trace.append("%s.%s=%s" % (nodesig(node), prop, a))
+        _check_consistent(w)
+    return a
+
+
+def _patch_inference(E):
+    for prop in ("zero", "one", "nonzero", "finite", "nonnegative", "nonpositive", "positive", "negative"):
+        name = "_is_" + prop
+        orig = vars(E.Expr)[name]
+
+        def getter(self, prop=prop, orig=orig):
+            w = World.cur
+            if w is None or w.real_infer_node is self:
+                return orig.fget(self)
+            return _contract_answer(w, self, prop)
+
+        setattr(E.Expr, name, property(getter))
+        _PATCHED.append(("Expr", name))
+
+
 def install():
     """shadow the global names of the repository modules that the rewriter / inference code reads"""
     if _PATCHED:
         return
+    import functional_algorithms.expr as _E
+
+    _patch_inference(_E)
     import functional_algorithms.expr as E
     import functional_algorithms.rewrite as R
     import functional_algorithms.utils as U
@@ -396,6 +530,10 @@ class World:
         self.consts_named = list(consts_named)
         self.allow_alias = allow_alias
         self.holes = []
+        self.byid = {}
+        self.answers = {}
+        self.real_infer_node = None  # the one node whose REAL inference code runs (inference obligations)
+        self.make_sem = None
         self.hyps = []  # z3 hypotheses (contracts of inference answers, payload facts)
         self.ctx = None
         self.trace = []  # human-readable decisions
@@ -431,7 +569,7 @@ class World:
         return {"fp32": numpy.float32, "fp16": numpy.float16, "fp64": numpy.float64, "fp64py": float, "real": float}[self.mode]
 
     def value_var(self, hole):
-        name = "v%d" % hole.hid
+        name = "v%s" % hole.hid
         if hole.ty == "B":
             return z3.Bool(name)
         if self.mode == "real":
@@ -484,7 +622,7 @@ def hole_class():
             if a == b:
                 return "eq"
             w = world()
-            lo, hi = min(a, b), max(a, b)
+            lo, hi = builtins.min(a, b), builtins.max(a, b)
             c = w.choose(("order", lo, hi), ["lt", "gt"])  # lo < hi or lo > hi
             return c if a == lo else {"lt": "gt", "gt": "lt"}[c]
 
@@ -503,15 +641,16 @@ def hole_class():
     class Hole(Expr):
         _vf_leaf = True
 
-        def __new__(cls, w, ty):
+        def __new__(cls, w, ty, hid):
             obj = object.__new__(cls)
             obj.context = w.ctx
-            obj.hid = len(w.holes)
+            obj.hid = hid  # hierarchical name ("0", "1", "0.1" ...): stable when other holes are refined
+            obj.num = len(w.holes)
             obj.ty = ty
             obj.props = {}
             obj._state = "undecided"
             obj._answers = {}
-            obj._Expr__serialize_id = 10**6 + obj.hid
+            obj._Expr__serialize_id = 10**6 + obj.num
             obj._Expr__serialized = ("hole", ForkKey(obj.hid))
             w.holes.append(obj)
             return obj
@@ -539,7 +678,7 @@ def hole_class():
 
         @property
         def intkey(self):
-            return 10**6 + self.hid
+            return 10**6 + self.num
 
         def _set_serialized_id(self, i):
             pass
@@ -567,23 +706,13 @@ def hole_class():
                 # asking an inference question about a hole decides nothing about its shape: the answers of an
                 # arbitrary sub-expression are any sound triple - exactly what the fork below enumerates
                 pass
-            if prop in self._answers:
-                return self._answers[prop]
-            a = w.choose(("is", self.hid, prop), [None, True, False])
-            self._answers[prop] = a
-            if a is not None:
-                v = w.value_var(self)
-                P = PROP_FORMULA[prop](v, w)
-                w.hyps.append(P if a else z3.Not(P))
-                w.trace.append("h%d.%s=%s" % (self.hid, prop, a))
-                _check_consistent(w)
-            return a
+            return _answer_from_knowledge(_knowledge(w, "h" + self.hid, lambda: w.value_var(self)), prop)
 
         def rewrite(self, modifier, *a, **kw):
             raise Unsupported("Hole.rewrite outside the traversal contract")
 
         def __repr__(self):
-            return "Hole(h%d:%s:%s)" % (self.hid, self.ty, self._state)
+            return "Hole(h%s:%s:%s)" % (self.hid, self.ty, self._state)
 
     for prop in ("zero", "one", "nonzero", "finite", "nonnegative", "nonpositive", "positive", "negative"):
 
@@ -642,21 +771,22 @@ def _check_consistent(w):
 # ---------------------------------------------------------------------------------------------
 # hole creation / refinement
 # ---------------------------------------------------------------------------------------------
-def new_hole(w, ty):
-    """a fresh hole, or (fork) an alias of an existing hole of the same type class, or its refinement"""
+def new_hole(w, ty, hid):
+    """a fresh hole named `hid`, or (fork) an alias of an existing hole of the same type class, or its refinement"""
     Hole = hole_class()
-    hid = len(w.holes)
+    if len(w.holes) > 64:
+        raise Unsupported("more than 64 holes on one path: %s" % " ".join(w.trace)[-400:])
     if w.allow_alias:
         cands = [h.hid for h in w.holes if h.ty == ty and getattr(h, "_alias_of", None) is None and not getattr(h, "_building", False)]
         a = w.choose(("alias", hid), [None] + cands)
         if a is not None:
-            # consume an id so that numbering stays deterministic
-            ph = Hole(w, ty)
+            ph = Hole(w, ty, hid)
             ph._alias_of = a
-            w.trace.append("h%d:=h%d" % (hid, a))
-            return resolve(w, w.holes[a])
-    h = Hole(w, ty)
+            w.trace.append("h%s:=h%s" % (hid, a))
+            return resolve(w, w.byid[a])
+    h = Hole(w, ty, hid)
     h._alias_of = None
+    w.byid[hid] = h
     return resolve(w, h)
 
 
@@ -696,7 +826,7 @@ def build_shape(w, h, shape):
     ctx = w.ctx
     if shape[0] == "opaque":
         h._state = "opaque"
-        w.trace.append("h%d=opaque" % h.hid)
+        w.trace.append("h%s=opaque" % h.hid)
         return h
     h._state = "refined"
     if shape[0] == "const":
@@ -705,24 +835,25 @@ def build_shape(w, h, shape):
             node = ctx.constant(shape[1], like)
         else:
             node = ctx.constant(payload_value(w, h, shape[1]), like)
-        w.trace.append("h%d=const(%s)" % (h.hid, shape[1]))
+        w.trace.append("h%s=const(%s)" % (h.hid, shape[1]))
         return _normal_form_or_prune(w, node)
     if shape[0] == "named":
         node = ctx.constant(shape[1], like_symbol(w, h.ty))
-        w.trace.append("h%d=%s" % (h.hid, shape[1]))
+        w.trace.append("h%s=%s" % (h.hid, shape[1]))
         return _normal_form_or_prune(w, node)
     kind = shape[1]
     if kind == "select":
-        ops = (new_hole(w, "B"), new_hole(w, h.ty), new_hole(w, h.ty))
+        tys = ("B", h.ty, h.ty)
     else:
-        ops = tuple(new_hole(w, t) for t in SIG[kind][0])
+        tys = SIG[kind][0]
+    ops = tuple(new_hole(w, t, "%s.%d" % (h.hid, i)) for i, t in enumerate(tys))
     node = Expr(ctx, kind, ops)
-    w.trace.append("h%d=%s(%s)" % (h.hid, kind, ",".join(_short(o) for o in ops)))
+    w.trace.append("h%s=%s(%s)" % (h.hid, kind, ",".join(_short(o) for o in ops)))
     return node
 
 
 def _short(o):
-    return "h%d" % o.hid if hasattr(o, "hid") else o.kind
+    return "h%s" % o.hid if hasattr(o, "hid") else o.kind
 
 
 def like_symbol(w, ty):
@@ -743,10 +874,10 @@ def payload_value(w, h, which):
     if w.mode == "real":
         if lit is not None:
             return float(lit)
-        return SymReal(z3.Real("c%d" % h.hid), float)
+        return SymReal(z3.Real("c%s" % h.hid), float)
     if lit is not None:
         return cls(lit)
-    v = z3.FP("c%d" % h.hid, z3.FPSort(*w.fmt()))
+    v = z3.FP("c%s" % h.hid, z3.FPSort(*w.fmt()))
     w.hyps.append(z3.Not(z3.fpIsNaN(v)))
     return SymFP(v, cls)
 
@@ -773,15 +904,21 @@ class PathOutcome:
         return " ".join(self.w.trace) or "-"
 
 
-def explore(build_and_run, mode, universe, consts_named=(), max_paths=60000, allow_alias=True):
-    """build_and_run(world) -> (input expr, output)   ; yields PathOutcome for every completed path"""
+def explore(build_and_run, mode, universe, consts_named=(), max_paths=400000, allow_alias=True, seeds=None, frontier=None):
+    """build_and_run(world) -> (input expr, output)   ; yields PathOutcome for every completed path.
+    `seeds`: start from these decision dicts (a shard of the tree).  `frontier=n`: breadth-first until at least n
+    open decision dicts exist, then stop and leave them in explore.open (used to split a job over processes)."""
     from functional_algorithms.context import Context
 
     install()
-    work = [{}]
+    work = [dict(d) for d in seeds] if seeds is not None else [{}]
+    explore.open = []
     n = 0
     while work:
-        dec = work.pop()
+        if frontier is not None and len(work) >= frontier:
+            explore.open = work
+            return
+        dec = work.pop(0) if frontier is not None else work.pop()
         n += 1
         if n > max_paths:
             raise Unsupported("path explosion (> %d)" % max_paths)
@@ -907,11 +1044,13 @@ def reach(method_names=(), infer_names=()):
             for n in names:
                 if isinstance(vars(R.Rewriter).get(n), types.FunctionType):
                     todo.append(("R", n))
-                if isinstance(vars(R).get(n), types.FunctionType) and n not in ("rewrite",):
+                mf = vars(R).get(n)
+                if isinstance(mf, types.FunctionType) and mf.__module__ == R.__name__ and n not in ("rewrite",):
                     todo.append(("M", n))
-                if n.startswith("_is"):
-                    for inn in INFER_NAMES:
-                        todo.append(("E", inn))
+                # inference called from a RULE is replaced by its contract (not followed); from an inference
+                # function the other inference functions of the same node are real code
+                if kind == "E" and (n == "_is" or n.startswith("_is_")) and n in vars(E.Expr):
+                    todo.append(("E", n))
     return codes
 
 
